@@ -40,7 +40,7 @@ def _twin(tag: str) -> str | None:
 
 DYN = ["non_dynamic", "bw", "bw", "bw_ff", "bw_analytic", "bw_swave", "bw_ffonly", "bw_edw", "probeA", "probeB", "probeX",
        "probeS", "non_dynamic_ff"]
-ALIGN = ["none", "axis", "dpd1", "dpd2", "dpd3"]
+ALIGN = ["none", "axis", "dpd1", "dpd2", "dpd3", "dpd1.0", "dpd3.0"]
 
 
 def _final_ids(tag: str) -> list[int]:
@@ -53,9 +53,9 @@ def gen_config_op(rng, slot: int, tag: str, dyn=None, sel_range: int = 64) -> di
     op = {"op": kind, "b": slot}
     if kind == "align":
         if tag.endswith("+r"):
-            op["v"] = rng.choices(ALIGN, weights=[2, 1, 3, 3, 3])[0]
+            op["v"] = rng.choices(ALIGN, weights=[2, 1, 3, 3, 3, 1, 1])[0]
         else:
-            op["v"] = rng.choices(ALIGN, weights=[3, 4, 1, 0, 0])[0]
+            op["v"] = rng.choices(ALIGN, weights=[3, 4, 1, 0, 0, 0, 0])[0]
     elif kind == "align_inplace":
         op["v"] = rng.choice([1, 2, 3])
     elif kind in ("scalar", "helcoup"):
